@@ -63,7 +63,7 @@ CLAIMED = {
   "DESIGN.md §3 C13"),
  "C09": ("model_checking",
   "TLA+ specs CueLiteral.tla (space of strings x quoting forms; grammar recogniser of string literals) and CueTokens.tla (token soups), enumerated by TLC; every state run through literal.Quote/Unquote, scanner, parser (and a sample through the evaluator)",
-  "CueLiteral.tla enumerates every sequence of <= 3 (thorough 4) symbols of a 17-symbol adversarial alphabet with each of 48 quoting forms (string/bytes x single/multi-line/optional multi-line x optional hashes x ASCII-only/graphic-only): Unquote(Quote(s)) must be s, and the quoted text must scan and parse as one literal. Its recogniser IsLit (single-line and multi-line literals with # delimiters and escapes, as a recursive operator) classifies every text over { \" \\ n a # LF } up to length 6 (thorough 8); scanner, parser and literal.Unquote must all agree with it. CueTokens.tla enumerates token soups of <= 3 (thorough 4) tokens from 36; each is parsed in two spacings: no panic, every error/node position inside the input, children within parents, siblings ordered.",
+  "CueLiteral.tla enumerates every sequence of <= 3 (thorough 4) symbols of a 17-symbol adversarial alphabet with each of 48 quoting forms (string/bytes x single/multi-line/optional multi-line x optional hashes x ASCII-only/graphic-only): Unquote(Quote(s)) must be s, and the quoted text must scan and parse as one literal. Its recogniser IsLit (single-line and multi-line literals with # delimiters and escapes, as a recursive operator) classifies every text over { \" \\ n a # LF } up to length 6 (thorough 7); scanner, parser and literal.Unquote must all agree with it. CueTokens.tla enumerates token soups of <= 3 (thorough 4) tokens from 36; each is parsed in two spacings: no panic, every error/node position inside the input, children within parents, siblings ordered.",
   "trusted: TLC, the recogniser (calibrated to full agreement with the three implementations on the unchanged tree), the position checker (canary: nodes outside the input must be flagged). Arbitrary byte strings are not enumerated: totality is claimed for grammar-shaped inputs only.",
   "DESIGN.md §3 C09"),
  "C10": ("exploration",
@@ -102,8 +102,8 @@ CLAIMED = {
   "trusted: TLC (enumeration), the renderer from states to text (files that do not parse are counted and fail the run above 20%), the tree dump; canary: a file with a moved comment must dump differently. The repository's own .cue corpus and token-level mutations of it are not part of the model-generated space (DESIGN.md §7); -s is only checked for parseability and idempotence.",
   "DESIGN.md §3 C08"),
  "C02": ("exploration",
-  "TLA+ spec Pipeline.tla (the pipeline parse -> compile -> validate -> concrete -> export CUE/JSON/YAML as a state machine with ok/err outcomes only, stage-consistency rules, three runs that must agree; plus the input spaces: programs over a pool of erroneous / cyclic expressions, byte-level mutants, token soups) model-checked by TLC (TypeOK, Repeatable, ParseErrorEnds, DataExportsAgree, Terminates); every input run three times in isolated worker processes and the recorded traces validated by TLC against PipelineTrace.tla",
-  "Trace validation of real executions: each input is run in a context already used for other programs, in a fresh context and in another process, inside worker processes with a 10 s / 2 GB ceiling (a worker that dies, hangs or exceeds the ceiling yields an abort event for the program it was on and is restarted on the rest). The events (run, stage, ok/err/panic, digest of the printed CUE / JSON / YAML or of the full error text) of all three runs form one trace; TLC accepts it only if it is a behaviour of Pipeline.tla: stages in order, no outcome other than ok/err (a panic leaving the API, a stack overflow, a timeout have no action), compile error => validation and data exports fail, concrete => JSON and YAML succeed, JSON ok <=> YAML ok, all runs complete and equal event by event. Inputs: all 13 hand-picked cyclic / erroneous programs and a seeded sample of 2500 (thorough 40000) of the 10^6 programs a/b/c over a 103-expression pool, 1500 (20000) byte-level mutants of four seed programs, all token soups up to 2 (3) tokens. One genuine crash (stack overflow on a bound embedded next to a required field) was repaired (fix: a8de011); a context-history dependence of error text is recorded as known finding.",
+  "TLA+ spec Pipeline.tla (the pipeline parse -> compile -> validate -> concrete -> export CUE/JSON/YAML as a state machine with ok/err outcomes only, stage-consistency rules, three runs that must agree; plus the input spaces: programs over a pool of erroneous / cyclic expressions, byte-level mutants, token soups) model-checked by TLC (TypeOK, Repeatable, ParseErrorEnds, ErrorValueNotExported, Terminates); every input run three times in isolated worker processes and the recorded traces validated by TLC against PipelineTrace.tla",
+  "Trace validation of real executions: each input is run in a context already used for other programs, in a fresh context and in another process, inside worker processes with a 10 s / 2 GB ceiling (a worker that dies, hangs or exceeds the ceiling yields an abort event for the program it was on and is restarted on the rest). The events (run, stage, ok/err/panic, digest of the printed CUE / JSON / YAML or of the full error text) of all three runs form one trace; TLC accepts it only if it is a behaviour of Pipeline.tla: stages in order, no outcome other than ok/err (a panic leaving the API, a stack overflow, a timeout have no action), compile error => validation and data exports fail, validation error => concrete validation fails, all runs complete and equal event by event. Inputs: all 16 hand-picked cyclic / erroneous programs and a seeded sample of 2500 (thorough 40000) of the 10^6 programs a/b/c over a 114-expression pool, 1500 (20000) byte-level mutants of four seed programs, all token soups up to 2 (3) tokens. One genuine crash (stack overflow on a bound embedded next to a required field) was repaired (fix: a8de011); a context-history dependence of error text is recorded as known finding.",
   "trusted: TLC, the worker's stage wrapper (recover per stage; canaries: a changed digest, a panic event and a truncated trace must be rejected by TLC). Not exhaustive: the program space is sampled, arbitrary byte strings are represented by mutants and soups only; non-determinism is only detected if it shows within three runs.",
   "DESIGN.md §3 C02"),
 }
